@@ -3,9 +3,12 @@
    section of C42_proofs, so the C42 loop lemmas give the value of every read call; seek and
    tell are handled directly.  Plus: open agrees with the reference for every mode, and the
    witnesses of the known divergences (_refuted). *)
-From PV Require Import Bytes C42 C42_proofs FileSpec C27.
+From PV Require Import Bytes C42 C42_gen C42_proofs FileSpec C27 C27_gen.
 From Coq Require Import Lia ZifyBool.
 Open Scope Z_scope.
+
+(* lia without the boolean equalities of the context (ZifyBool turns each into variables) *)
+Ltac clia := repeat match goal with H : @eq bool _ _ |- _ => clear H end; lia.
 
 Lemma skipn_skipn' {A} (x y : nat) (l : list A) : skipn x (skipn y l) = skipn (y + x) l.
 Proof.
@@ -92,10 +95,10 @@ Proof.
     apply drop_drop; [apply zlen_nonneg|apply T]. }
   assert (Hreal : realpos f' = pos f' + zlen (rbuf f')).
   { apply (f_equal zlen) in P1. unfold Lf, L in P1. rewrite !zlen_app in P1.
-    rewrite (t_real _ _ _ T) in P5. lia. }
-  apply mk_tied; cbn;
+    rewrite (t_real _ _ _ T) in P5. clia. }
+  apply mk_tied; cbn [set_pos r_content r_pos r_rd];
     [ exact I1 | apply T | rewrite P4, (t_pos _ _ _ T); reflexivity
-    | rewrite P4; pose proof (t_pos0 _ _ _ T); pose proof (zlen_nonneg res); lia
+    | rewrite P4; pose proof (t_pos0 _ _ _ T); pose proof (zlen_nonneg res); clia
     | exact Hreal | exact HL | rewrite C1; apply T | rewrite C9; apply T | rewrite C3; apply T
     | apply T | rewrite C8; apply T | exact I3 ].
 Qed.
@@ -260,7 +263,6 @@ Lemma refuted_bare_x :
     fst (sf_run 100 f0 [FWrite [97]]) <> fst (ref_run r0 [FWrite [97]]).
 Proof. eexists _, _. split; [reflexivity|]. split; [reflexivity|]. vm_compute. discriminate. Qed.
 
-
 (* =====================================================================================
    The disciplined fragment: write + flush + seek + read + tell (+ truncate last)
    ===================================================================================== *)
@@ -271,9 +273,9 @@ Local Arguments put : simpl never.
 Local Arguments zeros : simpl never.
 
 Lemma zlen_zeros n : zlen (zeros n) = Z.max 0 n.
-Proof. unfold zeros, zlen. rewrite repeat_length. lia. Qed.
+Proof. unfold zeros, zlen. rewrite repeat_length. clia. Qed.
 Lemma zeros_nonpos n : n <= 0 -> zeros n = [].
-Proof. intros. unfold zeros. replace (Z.to_nat n) with O by lia. reflexivity. Qed.
+Proof. intros. unfold zeros. replace (Z.to_nat n) with O by clia. reflexivity. Qed.
 
 Lemma put_nil c off : put c off [] = c.
 Proof. reflexivity. Qed.
@@ -283,8 +285,8 @@ Proof. intros H. unfold put. destruct d; [congruence|reflexivity]. Qed.
 Lemma put_end c d : put c (zlen c) d = c ++ d.
 Proof.
   destruct d as [|x d]; [now rewrite app_nil_r|].
-  rewrite put_cons by discriminate. rewrite take_all by lia. rewrite zeros_nonpos by lia.
-  rewrite drop_all by (pose proof (zlen_nonneg (x :: d)); lia). now rewrite app_nil_r.
+  rewrite put_cons by discriminate. rewrite take_all by clia. rewrite zeros_nonpos by clia.
+  rewrite drop_all by (pose proof (zlen_nonneg (x :: d)); clia). now rewrite app_nil_r.
 Qed.
 Lemma put_app c off a b : 0 <= off -> put (put c off a) (off + zlen a) b = put c off (a ++ b).
 Proof.
@@ -296,18 +298,18 @@ Proof.
   rewrite (put_cons c off A HA), (put_cons _ _ B HB), (put_cons c off (A ++ B) HAB).
   set (P := take off c ++ zeros (off - zlen c)).
   assert (HP : zlen P = off).
-  { unfold P. rewrite zlen_app, zlen_take, zlen_zeros by lia. pose proof (zlen_nonneg c). lia. }
+  { unfold P. rewrite zlen_app, zlen_take, zlen_zeros by clia. pose proof (zlen_nonneg c). clia. }
   set (S := drop (off + zlen A) c).
   replace (take off c ++ zeros (off - zlen c) ++ A ++ S) with ((P ++ A) ++ S)
     by (unfold P; now rewrite <- !app_assoc).
-  assert (HPA : zlen (P ++ A) = off + zlen A) by (rewrite zlen_app; lia).
-  rewrite take_app_le by lia. rewrite take_all by lia.
-  rewrite zeros_nonpos by (rewrite zlen_app; pose proof (zlen_nonneg S); lia).
-  rewrite drop_app_ge by (pose proof (zlen_nonneg B); lia).
-  replace (off + zlen A + zlen B - zlen (P ++ A)) with (zlen B) by lia.
-  unfold S. rewrite drop_drop by (try apply zlen_nonneg; pose proof (zlen_nonneg A); lia).
+  assert (HPA : zlen (P ++ A) = off + zlen A) by (rewrite zlen_app; clia).
+  rewrite take_app_le by clia. rewrite take_all by clia.
+  rewrite zeros_nonpos by (rewrite zlen_app; pose proof (zlen_nonneg S); clia).
+  rewrite drop_app_ge by (pose proof (zlen_nonneg B); clia).
+  replace (off + zlen A + zlen B - zlen (P ++ A)) with (zlen B) by clia.
+  unfold S. rewrite drop_drop by (try apply zlen_nonneg; pose proof (zlen_nonneg A); clia).
   rewrite zlen_app. unfold P. rewrite <- !app_assoc. cbn [app].
-  replace (off + (zlen A + zlen B)) with (off + zlen A + zlen B) by lia. reflexivity.
+  replace (off + (zlen A + zlen B)) with (off + zlen A + zlen B) by clia. reflexivity.
 Qed.
 
 (* ---- configuration frame ---- *)
@@ -330,12 +332,12 @@ Lemma s_write_chunk data : data <> [] ->
 Proof.
   intros H. pose proof (zlen_pos _ H) as Hp.
   assert (Hz : zlen (take MAX_REQUEST_SIZE data) = Z.min MAX_REQUEST_SIZE (zlen data))
-    by (apply zlen_take; unfold MAX_REQUEST_SIZE; lia).
-  assert (H1 : 1 <= zlen (take MAX_REQUEST_SIZE data)) by (unfold MAX_REQUEST_SIZE in *; lia).
-  split; [intros E; rewrite E, zlen_nil in H1; lia|].
-  split; [apply take_drop_len; unfold MAX_REQUEST_SIZE; lia|].
-  pose proof (zlen_drop (zlen (take MAX_REQUEST_SIZE data)) data ltac:(lia)) as Hd.
-  unfold zlen in *. lia.
+    by (apply zlen_take; unfold MAX_REQUEST_SIZE; clia).
+  assert (H1 : 1 <= zlen (take MAX_REQUEST_SIZE data)) by (unfold MAX_REQUEST_SIZE in *; clia).
+  split; [intros E; rewrite E, zlen_nil in H1; clia|].
+  split; [apply take_drop_len; unfold MAX_REQUEST_SIZE; clia|].
+  pose proof (zlen_drop (zlen (take MAX_REQUEST_SIZE data)) data ltac:(clia)) as Hd.
+  unfold zlen in *. clia.
 Qed.
 
 (* _write_all over the server handle: the whole data lands, contiguously *)
@@ -352,11 +354,11 @@ Lemma write_all_srv fuel : forall (f : sfile) data,
        pos f' = zlen (s_content (strm f')) /\ realpos f' = zlen (s_content (strm f'))) /\
     (data = [] -> f' = f).
 Proof.
-  induction fuel as [|k IH]; intros f data Hl Hok Happ Hrp Hsz; [lia|].
+  induction fuel as [|k IH]; intros f data Hl Hok Happ Hrp Hsz; [clia|].
   cbn [write_all]. destruct (is_nil data) eqn:En.
   - apply is_nil_true in En. subst data. exists f. split; [reflexivity|].
     split; [unfold wa_content; destruct (fl_append f); [now rewrite app_nil_r|reflexivity]|].
-    repeat split; try assumption; try reflexivity; try (rewrite zlen_nil; lia); try congruence; try apply fcfg_refl.
+    repeat split; try assumption; try reflexivity; try (rewrite zlen_nil; clia); try congruence; try apply fcfg_refl.
   - apply is_nil_false in En. destruct (s_write_chunk data En) as (Hc1 & Hc2 & Hc3).
     set (chunk := take MAX_REQUEST_SIZE data) in *. set (rest := drop (zlen chunk) data) in *.
     unfold s_write at 1. fold chunk. rewrite Happ.
@@ -367,10 +369,10 @@ Proof.
       assert (Hsz1 : fl_append f1 = true -> fsize f1 = zlen (s_content (strm f1))).
       { intros _. unfold f1. cbn. rewrite (Hsz eq_refl), zlen_app. reflexivity. }
       assert (Hf1 : fl_append f1 = true) by (unfold f1; exact Ea).
-      destruct (IH f1 rest ltac:(lia) ltac:(unfold f1; exact I)
+      destruct (IH f1 rest ltac:(clia) ltac:(unfold f1; exact I)
                   ltac:(unfold f1; cbn; now rewrite Ea)
                   ltac:(unfold f1; cbn; rewrite (Hsz eq_refl); pose proof (zlen_nonneg c);
-                        pose proof (zlen_nonneg chunk); lia) Hsz1)
+                        pose proof (zlen_nonneg chunk); clia) Hsz1)
         as (f' & E & C & Ok' & App' & Cfg & Rb & Wb & Sz' & _ & PosA & Nil).
       exists f'. split; [exact E|].
       assert (Hcfg1 : fcfg f f1) by (unfold f1; unfold fcfg; cbn; tauto).
@@ -394,22 +396,22 @@ Proof.
       rewrite Hfp.
       match goal with |- exists f', write_all _ _ ?F _ = _ /\ _ => set (f1 := F) end.
       assert (Hf1 : fl_append f1 = false) by (unfold f1; exact Ea).
-      destruct (IH f1 rest ltac:(lia) ltac:(unfold f1, srv_ok; cbn; reflexivity)
+      destruct (IH f1 rest ltac:(clia) ltac:(unfold f1, srv_ok; cbn; reflexivity)
                   ltac:(unfold f1; cbn; now rewrite Ea)
-                  ltac:(unfold f1; cbn; pose proof (zlen_nonneg chunk); lia)
+                  ltac:(unfold f1; cbn; pose proof (zlen_nonneg chunk); clia)
                   ltac:(intros H; rewrite Hf1 in H; discriminate))
         as (f' & E & C & Ok' & App' & Cfg & Rb & Wb & Sz' & PosN & _ & _).
       exists f'. split; [exact E|].
       assert (Hcfg1 : fcfg f f1) by (unfold f1; unfold fcfg; cbn; tauto).
       split.
       { rewrite C, Hf1. unfold wa_content. unfold f1. cbn. fold c.
-        rewrite put_app by lia. now rewrite <- Hc2. }
+        rewrite put_app by clia. now rewrite <- Hc2. }
       split; [exact Ok'|]. split; [exact App'|]. split; [eapply fcfg_trans; eassumption|].
       split; [rewrite Rb; reflexivity|]. split; [rewrite Wb; reflexivity|].
       split; [exact Sz'|]. split; [|split; [intros; discriminate|intros; congruence]].
       intros _. destruct (PosN Hf1) as [P1 P2]. rewrite P1, P2. unfold f1. cbn.
       assert (Hz : zlen data = zlen chunk + zlen rest) by (rewrite Hc2 at 1; apply zlen_app).
-      split; lia.
+      split; clia.
 Qed.
 
 (* ---- invariant of an SFTPFile and the reference file it stands for ---- *)
@@ -431,7 +433,7 @@ Lemma winv_rbnil (f : sfile) :
   (fl_buffered f = false -> wbuf f = []) -> rbuf f = [] -> realpos f = pos f -> winv f.
 Proof.
   intros H1 H2 H3 H4 H5 H6 H7 Hrb Hrp. constructor; try assumption.
-  - rewrite Hrb, zlen_nil. lia.
+  - rewrite Hrb, zlen_nil. clia.
   - unfold Lf, L, RemOf, sRem. rewrite Hrb, Hrp. reflexivity.
   - intros _. exact Hrb.
 Qed.
@@ -450,7 +452,7 @@ Definition sim (f : sfile) (r : rfile) : Prop :=
 Lemma view_nil f : wbuf f = [] -> view_content f = s_content (strm f) /\ view_pos f = pos f.
 Proof.
   intros H. unfold view_content, view_pos, wa_content. rewrite H. cbn. rewrite ?zlen_nil.
-  destruct (fl_append f); split; try reflexivity; try apply app_nil_r; lia.
+  destruct (fl_append f); split; try reflexivity; try apply app_nil_r; clia.
 Qed.
 
 (* flushing the first k bytes of the write buffer does not change what the file stands for *)
@@ -463,9 +465,9 @@ Proof.
   intros W Hl Hk. set (A := take k (wbuf f)). set (B := drop k (wbuf f)).
   assert (HAB : wbuf f = A ++ B) by (symmetry; apply take_drop).
   assert (HlA : (length A < fuel)%nat).
-  { pose proof (zlen_take k (wbuf f) ltac:(lia)) as Hz. fold A in Hz. unfold zlen in *. lia. }
+  { pose proof (zlen_take k (wbuf f) ltac:(clia)) as Hz. fold A in Hz. unfold zlen in *. clia. }
   assert (Hrp0 : 0 <= realpos f).
-  { rewrite (w_real _ W). pose proof (w_pos0 _ W). pose proof (zlen_nonneg (rbuf f)). lia. }
+  { rewrite (w_real _ W). pose proof (w_pos0 _ W). pose proof (zlen_nonneg (rbuf f)). clia. }
   destruct (write_all_srv fuel f A HlA (w_srv _ W) (w_app _ W) Hrp0 (w_size _ W))
     as (f2 & E & C & Ok' & App' & Cfg & Rb & Wb & Sz' & PosN & PosA & Nil).
   exists f2. split; [exact E|]. cbn zeta.
@@ -483,7 +485,7 @@ Proof.
   - (* a non-empty prefix is written: the read buffer is empty and realpos = pos *)
     assert (Hwne : wbuf f <> []) by (rewrite HAB; discriminate).
     pose proof (w_excl _ W Hwne) as Hrb.
-    assert (Hrp : realpos f = pos f) by (rewrite (w_real _ W), Hrb; rewrite ?zlen_nil; lia).
+    assert (Hrp : realpos f = pos f) by (rewrite (w_real _ W), Hrb; rewrite ?zlen_nil; clia).
     assert (HAne : a0 :: A' <> []) by discriminate.
     set (AA := a0 :: A') in *.
     assert (Hpos2 : realpos f2 = pos f2 /\ 0 <= pos f2 /\
@@ -496,12 +498,12 @@ Proof.
         rewrite HAB, <- app_assoc. split; [reflexivity|].
         replace (is_nil (AA ++ B)) with false by reflexivity.
         rewrite !zlen_app. destruct (is_nil B) eqn:EB.
-        + apply is_nil_true in EB. rewrite EB, zlen_nil. lia.
-        + lia.
+        + apply is_nil_true in EB. rewrite EB, zlen_nil. clia.
+        + clia.
       - destruct (PosN eq_refl) as [P1 P2]. rewrite P1, P2, Hrp.
         pose proof (w_pos0 _ W). pose proof (zlen_nonneg AA).
-        split; [reflexivity|]. split; [lia|].
-        rewrite put_app by lia. rewrite HAB. split; [reflexivity|]. rewrite zlen_app. lia. }
+        split; [reflexivity|]. split; [clia|].
+        rewrite put_app by clia. rewrite HAB. split; [reflexivity|]. rewrite zlen_app. clia. }
     destruct Hpos2 as (Q1 & Q2 & Q3 & Q4).
     split; [|split; [exact Q3|split; [exact Q4|exact Hcfg3]]].
     apply winv_rbnil; cbn; try assumption.
@@ -517,9 +519,9 @@ Lemma flush_core fuel (f : sfile) :
     s_content (strm f') = view_content f /\ pos f' = view_pos f /\ fcfg f f'.
 Proof.
   intros W Hl.
-  destruct (partial_flush fuel f (zlen (wbuf f)) W Hl ltac:(pose proof (zlen_nonneg (wbuf f)); lia))
+  destruct (partial_flush fuel f (zlen (wbuf f)) W Hl ltac:(pose proof (zlen_nonneg (wbuf f)); clia))
     as (f2 & E & W3 & V1 & V2 & Cfg).
-  rewrite take_all in E by lia. rewrite drop_all in W3, V1, V2, Cfg by lia.
+  rewrite take_all in E by clia. rewrite drop_all in W3, V1, V2, Cfg by clia.
   unfold bf_flush. rewrite E. eexists. split; [reflexivity|].
   split; [exact W3|]. split; [reflexivity|].
   destruct (view_nil (upd_wr f2 [] (pos f2) (realpos f2) (fsize f2) (strm f2)) eq_refl) as [N1 N2].
@@ -544,7 +546,7 @@ Lemma buffer_write_sim (f : sfile) r d :
   (fl_buffered f = true -> winv f1) /\ sim f1 r1.
 Proof.
   intros W (S1 & S2 & S3 & S4 & S5) Hrb. cbn zeta.
-  assert (Hrp : realpos f = pos f) by (rewrite (w_real _ W), Hrb; rewrite ?zlen_nil; lia).
+  assert (Hrp : realpos f = pos f) by (rewrite (w_real _ W), Hrb; rewrite ?zlen_nil; clia).
   split.
   { intros Hb. apply winv_rbnil; cbn; try assumption; try (intros Hb'; congruence); apply W. }
   destruct d as [|x d'].
@@ -568,10 +570,10 @@ Proof.
     + rewrite S1, put_end. split; [now rewrite app_assoc|].
       replace (is_nil (wbuf f ++ d)) with false
         by (symmetry; apply is_nil_false; destruct (wbuf f); discriminate).
-      split; [rewrite !zlen_app; lia|]. repeat split; assumption.
+      split; [rewrite !zlen_app; clia|]. repeat split; assumption.
     + rewrite S1, S2. pose proof (w_pos0 _ W).
-      rewrite put_app by lia. split; [reflexivity|].
-      split; [rewrite zlen_app; lia|]. repeat split; assumption.
+      rewrite put_app by clia. split; [reflexivity|].
+      split; [rewrite zlen_app; clia|]. repeat split; assumption.
 Qed.
 
 Lemma guard_fuel fuel f o : guard fuel f o = true ->
@@ -605,14 +607,14 @@ Proof.
     apply drop_drop; [apply zlen_nonneg|apply W]. }
   assert (Hreal : realpos f' = pos f' + zlen (rbuf f')).
   { apply (f_equal zlen) in P1. unfold Lf, L in P1. rewrite !zlen_app in P1.
-    rewrite (w_real _ W) in P5. lia. }
+    rewrite (w_real _ W) in P5. clia. }
   assert (Hw' : wbuf f' = []) by congruence.
   split.
   - constructor; try assumption.
     + congruence.
     + rewrite C9. apply W.
     + rewrite C8. apply W.
-    + rewrite P4. pose proof (w_pos0 _ W). pose proof (zlen_nonneg res). lia.
+    + rewrite P4. pose proof (w_pos0 _ W). pose proof (zlen_nonneg res). clia.
     + rewrite C5, C2, I1. apply W.
     + intros _. exact Hw'.
     + intros H. congruence.
@@ -631,11 +633,12 @@ Proof.
   set (c := s_content (strm f)).
   assert (Hinv : wbuf f = [] -> inv srv (sInv2 c (fl_append f)) f).
   { intros _. unfold inv, sInv2, sInv. split; [|apply W]. split; [reflexivity|]. split; [|apply W].
-    rewrite (w_real _ W). pose proof (w_pos0 _ W). pose proof (zlen_nonneg (rbuf f)). lia. }
+    rewrite (w_real _ W). pose proof (w_pos0 _ W). pose proof (zlen_nonneg (rbuf f)). clia. }
   assert (Hfo : fuel_ok srv sRem fuel f).
-  { unfold fuel_ok, RemOf, sRem. rewrite drop_skipn, skipn_length. lia. }
-  destruct o as [n|size| |d|off whence| |n|]; try discriminate G; cbn [sf_step ref_step].
+  { unfold fuel_ok, RemOf, sRem. rewrite drop_skipn, skipn_length. clia. }
+  destruct o as [n|size| |d|off whence| |n|]; try discriminate G; cbn [sf_step].
   - (* read *)
+    cbn [ref_step].
     apply is_nil_true in G. destruct (view_nil f G) as [V1 V2].
     rewrite S3. destruct (fl_read f) eqn:Er; cbn [negb].
     + assert (Hrest : rest r = Lf f) by (unfold rest; now rewrite S1, S2, V1, V2, (w_L _ W)).
@@ -643,12 +646,12 @@ Proof.
       destruct n as [n|]; [destruct (Z_lt_ge_dec n 0) as [Hn|Hn]|].
       * destruct (read_all_spec srv s_read sRem _ (s_read_spec2 c (fl_append f)) fuel f (Some n)
                     (Hinv G) Hfo (w_closed _ W) Er Hn) as (f' & E & P & _).
-        rewrite E. replace (n <? 0) with true by lia. fold (Lf f).
+        rewrite E. replace (n <? 0) with true by clia. fold (Lf f).
         destruct (post_winv f f' r (Lf f) c W S G eq_refl P) as [W' S'].
         eexists _, f', _. split; [reflexivity|]. split; [reflexivity|]. split; assumption.
       * destruct (read_n_spec srv s_read sRem _ (s_read_spec2 c (fl_append f)) fuel f n
-                    (Hinv G) Hfo (w_bufsize _ W) (w_closed _ W) Er ltac:(lia)) as (f' & E & P).
-        rewrite E. replace (n <? 0) with false by lia. fold (Lf f).
+                    (Hinv G) Hfo (w_bufsize _ W) (w_closed _ W) Er ltac:(clia)) as (f' & E & P).
+        rewrite E. replace (n <? 0) with false by clia. fold (Lf f).
         destruct (post_winv f f' r _ c W S G eq_refl P) as [W' S'].
         eexists _, f', _. split; [reflexivity|]. split; [reflexivity|]. split; assumption.
       * destruct (read_all_spec srv s_read sRem _ (s_read_spec2 c (fl_append f)) fuel f None
@@ -659,7 +662,7 @@ Proof.
     + unfold bf_read. rewrite (w_closed _ W), Er. cbn.
       eexists _, _, _. split; [reflexivity|]. split; [reflexivity|]. split; assumption.
   - (* readline *)
-    apply is_nil_true in G. destruct (view_nil f G) as [V1 V2].
+    cbn [ref_step]. apply is_nil_true in G. destruct (view_nil f G) as [V1 V2].
     rewrite S3. destruct (fl_read f) eqn:Er; cbn [negb].
     + assert (Hrest : rest r = Lf f) by (unfold rest; now rewrite S1, S2, V1, V2, (w_L _ W)).
       rewrite Hrest.
@@ -680,15 +683,15 @@ Proof.
       unfold bf_write. rewrite (w_closed _ W), Ew. cbn [negb].
       destruct (fl_buffered f) eqn:Eb; cbn [negb].
       * specialize (W1 eq_refl). fold f1.
-        assert (Hl1 : (length (wbuf f1) < fuel)%nat) by (unfold f1; cbn; rewrite app_length; lia).
+        assert (Hl1 : (length (wbuf f1) < fuel)%nat) by (unfold f1; cbn; rewrite app_length; clia).
         destruct (fl_linebuf f) eqn:El.
         -- destruct (rindex_of LF d) as [p|] eqn:Ep.
            ++ destruct (rindex_of_some _ _ _ Ep) as [Hp _].
               set (k := Z.of_nat p + (zlen (wbuf f ++ d) - zlen d) + 1).
               assert (Hk : 0 <= k <= zlen (wbuf f1)).
-              { unfold k, f1. cbn. rewrite zlen_app. unfold zlen in *. lia. }
+              { unfold k, f1. cbn. rewrite zlen_app. unfold zlen in *. clia. }
               destruct (partial_flush fuel f1 k W1 Hl1 Hk) as (f2 & E & W3 & V1 & V2 & Cfg).
-              change (wbuf f1) with (wbuf f ++ d) in E. fold k. rewrite E.
+              change (wbuf f1) with (wbuf f ++ d) in *. fold k. rewrite E.
               eexists _, _, _. split; [reflexivity|]. split; [reflexivity|].
               split; [exact W3|].
               destruct S1' as (T1 & T2 & T3 & T4 & T5). destruct Cfg as (G1 & G2 & G3 & _).
@@ -704,9 +707,9 @@ Proof.
            ++ eexists _, _, _. split; [reflexivity|]. split; [reflexivity|]. split; assumption.
       * (* unbuffered: the buffer is empty, the data goes straight out *)
         pose proof (w_unbuf _ W Eb) as Hwb.
-        assert (Hrp : realpos f = pos f) by (rewrite (w_real _ W), G; rewrite ?zlen_nil; lia).
+        assert (Hrp : realpos f = pos f) by (rewrite (w_real _ W), G; rewrite ?zlen_nil; clia).
         assert (Hrp0 : 0 <= realpos f) by (rewrite Hrp; apply W).
-        destruct (write_all_srv fuel f d ltac:(lia) (w_srv _ W) (w_app _ W) Hrp0 (w_size _ W))
+        destruct (write_all_srv fuel f d ltac:(clia) (w_srv _ W) (w_app _ W) Hrp0 (w_size _ W))
           as (f2 & E & C & Ok' & App' & Cfg & Rb & Wb & Sz' & PosN & PosA & Nil).
         rewrite E. eexists _, f2, _. split; [reflexivity|]. split; [reflexivity|].
         destruct Cfg as (G1 & G2 & G3 & G4 & G5 & G6 & G7).
@@ -719,12 +722,12 @@ Proof.
             + rewrite (Nil eq_refl). rewrite Hrp, app_nil_r. cbn.
               split; [reflexivity|]. split; [apply W|]. split; reflexivity.
             + destruct (PosA eq_refl ltac:(discriminate)) as [P1 P2].
-              rewrite C in P1, P2. unfold wa_content in P1, P2. rewrite Ea in P1, P2.
+              rewrite C in P1, P2. unfold wa_content in P1, P2.
               rewrite P1, P2. cbn [is_nil]. rewrite zlen_app.
               split; [reflexivity|]. split; [rewrite <- zlen_app; apply zlen_nonneg|]. split; reflexivity.
           - destruct (PosN eq_refl) as [P1 P2]. rewrite P1, P2, Hrp.
             pose proof (w_pos0 _ W). pose proof (zlen_nonneg d).
-            split; [reflexivity|]. split; [lia|]. split; reflexivity. }
+            split; [reflexivity|]. split; [clia|]. split; reflexivity. }
         destruct Hpos2 as (Q1 & Q2 & Q3 & Q4).
         split.
         -- apply winv_rbnil; try assumption.
@@ -739,10 +742,11 @@ Proof.
              by (unfold f1; cbn; tauto).
            repeat split; try assumption; intuition congruence.
     + (* not writable on either side *)
-      unfold bf_write. rewrite (w_closed _ W), Ew. cbn. rewrite S4, Ew. cbn.
+      unfold bf_write. rewrite (w_closed _ W), Ew. cbn [ref_step]. cbn. rewrite S4. cbn.
       eexists _, _, _. split; [reflexivity|]. split; [reflexivity|]. split; assumption.
   - (* seek *)
-    destruct (flush_core fuel f W ltac:(lia)) as (f1 & E & W1 & Wb & C1 & P1 & Cfg).
+    cbn [ref_step].
+    destruct (flush_core fuel f W ltac:(clia)) as (f1 & E & W1 & Wb & C1 & P1 & Cfg).
     unfold sf_seek. rewrite E. rewrite C1, P1, <- S1, <- S2.
     set (p := if whence =? 0 then off else if whence =? 1 then r_pos r + off else zlen (r_content r) + off).
     destruct (view_nil f1 Wb) as [N1 N2].
@@ -750,17 +754,19 @@ Proof.
     destruct (p <? 0) eqn:Ep.
     + eexists _, _, _. split; [reflexivity|]. split; [reflexivity|]. split; [exact W1|].
       unfold sim. rewrite N1, N2, C1, P1. repeat split; congruence.
-    + eexists _, _, _. split; [reflexivity|]. split; [reflexivity|].
+    + apply Z.ltb_ge in Ep. eexists _, _, _. split; [reflexivity|]. split; [reflexivity|].
       split.
-      * apply winv_rbnil; cbn; try apply W1; try reflexivity; try lia.
+      * apply winv_rbnil; cbn; try apply W1; try reflexivity; try clia.
       * unfold sim, view_content, view_pos, wa_content. cbn. rewrite Wb. cbn.
         rewrite C1, S1. destruct (fl_append f1); repeat split; try congruence;
-          try (now rewrite app_nil_r); lia.
+          try (now rewrite app_nil_r); rewrite ?zlen_nil; clia.
   - (* tell *)
+    cbn [ref_step].
     apply is_nil_true in G. destruct (view_nil f G) as [_ V2].
     rewrite S2, V2. eexists _, _, _. split; [reflexivity|]. split; [reflexivity|]. split; assumption.
   - (* flush *)
-    destruct (flush_core fuel f W ltac:(lia)) as (f1 & E & W1 & Wb & C1 & P1 & Cfg).
+    cbn [ref_step].
+    destruct (flush_core fuel f W ltac:(clia)) as (f1 & E & W1 & Wb & C1 & P1 & Cfg).
     rewrite E. cbn. destruct (view_nil f1 Wb) as [N1 N2].
     destruct Cfg as (G1 & G2 & G3 & _).
     eexists _, _, _. split; [reflexivity|]. split; [reflexivity|]. split; [exact W1|].
@@ -797,8 +803,8 @@ Proof.
     + cbn [guarded] in G. apply andb_true_iff in G as [G Hn]. apply andb_true_iff in G as [Hwb Hwr].
       apply is_nil_true in Hwb. destruct S as (S1 & S2 & S3 & S4 & S5).
       destruct (view_nil f Hwb) as [V1 V2].
-      cbn [sf_run ref_run sf_step ref_step sf_truncate]. rewrite S4, Hwr.
-      replace (n <? 0) with false by lia. cbn [negb orb fst snd].
+      apply Z.leb_le in Hn. cbn [sf_run ref_run sf_step ref_step]. unfold sf_truncate. rewrite S4, Hwr.
+      replace (n <? 0) with false by clia. cbn [negb orb fst snd].
       split; [reflexivity|].
       unfold final_content, bf_close, bf_flush. cbn [wbuf upd_rd]. rewrite Hwb.
       assert (Hw : forall g : sfile, write_all s_write fuel g [] = Some g) by (intros; destruct fuel; reflexivity).
@@ -819,12 +825,13 @@ Proof.
                 (mksrv c' (if m_append m then zlen c' else 0) None (m_append m)) in
       winv f /\ sim f (mkrf c' (if m_append m then zlen c' else 0) (m_read m) (m_write m) (m_append m))).
   { intros c' f. split.
-    - apply winv_rbnil; try reflexivity.
-      + exact I.
-      + apply (generic_bufsize _ _ _ _ bufsz (zlen c')
-                 (mksrv c' (if m_append m then zlen c' else 0) None (m_append m))).
-      + unfold f. cbn. destruct (m_append m); [apply zlen_nonneg|lia].
-      + unfold f. cbn. intros ->. reflexivity.
+    - apply winv_rbnil;
+        [ exact I | reflexivity | reflexivity
+        | apply (generic_bufsize _ _ _ _ bufsz (zlen c')
+                   (mksrv c' (if m_append m then zlen c' else 0) None (m_append m)))
+        | unfold f; cbn; destruct (m_append m); [apply zlen_nonneg|clia]
+        | unfold f; cbn; intros ->; reflexivity
+        | intros _; reflexivity | reflexivity | reflexivity ].
     - unfold sim, view_content, view_pos, wa_content, f. cbn.
       destruct m; try congruence; cbn; repeat split; try reflexivity; try (now rewrite app_nil_r). }
   destruct file as [c0|].
@@ -846,3 +853,38 @@ Proof.
   destruct (open_winv _ _ _ _ _ Hs Hr Hm) as [W S].
   exact (run_disciplined fuel ops f0 r0 W S G).
 Qed.
+
+Lemma write_all_lands :
+  forall (fuel : nat) (f : sfile) (data : list Z),
+    (length data < fuel)%nat -> srv_ok (strm f) -> s_app (strm f) = fl_append f -> 0 <= realpos f ->
+    (fl_append f = true -> fsize f = zlen (s_content (strm f))) ->
+    exists f', write_all s_write fuel f data = Some f' /\
+      s_content (strm f') = wa_content (fl_append f) (s_content (strm f)) (realpos f) data.
+Proof.
+  intros fuel f data H1 H2 H3 H4 H5.
+  destruct (write_all_srv fuel f data H1 H2 H3 H4 H5) as (f' & E & C & _).
+  exists f'. split; assumption.
+Qed.
+
+(* ---- tie to the source: MAX_REQUEST_SIZE, the wire flags and the open-mode table, regenerated on
+   every run from sftp_file.py / sftp_client.py / sftp_server.py (coq/Gen/C27_gen.v, gen/c27.py) ---- *)
+Definition open_row_ok (row : Z * (Z * (Z * bool * bool * bool * bool) * Z)) : bool :=
+  let '(k, (pflags, (acc, app, creat, trunc, excl), fl)) := row in
+  let m := fmode_of k in
+  (* O_TRUNC is immaterial under O_EXCL (the file is new): the model does not represent it there *)
+  Bool.eqb (m_append m) app && (m_excl m || Bool.eqb (m_trunc m) trunc) && Bool.eqb (m_excl m) excl &&
+  Bool.eqb (m_must_exist m) (negb creat) &&
+  (acc =? (if p_read m then (if p_write m then 2 else 0) else (if p_write m then 1 else 0))) &&
+  (pflags =? (if p_read m then G_SFTP_FLAG_READ else 0) + (if p_write m then G_SFTP_FLAG_WRITE else 0) +
+             (if m_append m then G_SFTP_FLAG_APPEND else 0) +
+             (if m_must_exist m then 0 else G_SFTP_FLAG_CREATE) +
+             (if trunc then G_SFTP_FLAG_TRUNC else 0) + (if m_excl m then G_SFTP_FLAG_EXCL else 0)) &&
+  match sf_open m 0 (if m_excl m then None else Some []) with
+  | Some f => (flags_of f =? fl) && Bool.eqb (fl_read f) (p_read m) && Bool.eqb (fl_write f) (p_write m) &&
+              Bool.eqb (s_app (strm f)) app
+  | None => false
+  end.
+Lemma source_tables :
+  MAX_REQUEST_SIZE = G_MAX_REQUEST_SIZE /\
+  forallb open_row_ok G_open_table = true /\ map fst G_open_table = [0; 1; 2; 3; 4; 5; 6; 7].
+Proof. split; [reflexivity|]. split; vm_compute; reflexivity. Qed.
